@@ -1,5 +1,6 @@
 """C17 — Hooked vectored I/O only hands the kernel the caller's unfilled buffers (structural clauses)."""
 from rules.common import start
+from rules import wave2_nio
 from rules import nio
 
 
@@ -13,4 +14,7 @@ def run(tier):
     f = fx["core/default"]
     nio.count_rule(run, f, "C17-COUNT", "C17-SUFFIX")
     nio.head_rule(run, f, "C17-HEAD")
+    # clauses added for the wave-2 seeds (rules/wave2.py; DESIGN 12a)
+    wave2_nio.no_raw_array_rule(run, f, "C17-NO-RAW-ARRAY")
+    wave2_nio.index_advances_rule(run, f, "C17-INDEX-ADVANCES")
     return run.finish()
